@@ -8,6 +8,7 @@ use std::fmt::Write as _;
 pub mod auth;
 pub mod datalog;
 pub mod keycodec;
+pub mod schema;
 pub mod expr;
 
 /// SplitMix64: every random choice of a run derives from one state.
